@@ -75,9 +75,10 @@ def step (st : DS) (toks : List String) : DS × String :=
   | ["aget", k] => (match k.toNat? with | some k => (st, showSemVal (jsGet st.js k)) | none => (st, "bad-op"))
   | ["apush", v] =>
     (match parseVal v with
-     | some v => let a : JsArr := { st := (st.js.st.insert st.js.len (plain v)).1, len := st.js.len + 1 }; ({ st with js := a }, dumpJs a)
+     | some v => let (threw, a) := jsPush st.js v; ({ st with js := a }, (if threw then "throw " else "") ++ dumpJs a)
      | none => (st, "bad-op"))
-  | ["ashift"] => let (r, a) := jsShift st.js; ({ st with js := a }, s!"r={showSemVal r} {dumpJs a}")
+  | ["ashift"] => let (r, threw, a) := jsShift st.js; ({ st with js := a }, s!"r={if threw then "throw" else showSemVal r} {dumpJs a}")
+  | ["alock"] => let a : JsArr := { st.js with lenWritable := false }; ({ st with js := a }, dumpJs a)
   | ["adel", k] =>
     (match k.toNat? with
      | some k => let a : JsArr := { st.js with st := (st.js.st.remove k).1 }; ({ st with js := a }, dumpJs a)
